@@ -21,8 +21,17 @@ class ToolError(Exception):
     pass
 
 
+import threading
+_scratch_lock = threading.Lock()
+
+
 def scratch():
     """Per-process scratch directory (tmpfs), removed at exit."""
+    with _scratch_lock:
+        return _scratch_locked()
+
+
+def _scratch_locked():
     global _scratch
     if _scratch is None:
         base = "/dev/shm" if os.path.isdir("/dev/shm") and os.access("/dev/shm", os.W_OK) else os.path.join(ROOT, ".scratch")
